@@ -19,6 +19,7 @@ def with_layout(short, layout, port):
     """corpus form 'c17 mode buf freq cfg events...' (@T<i> = address tuple of client i)"""
     t = short.split()
     ev = [layout.tuples[int(x[2:])] if x.startswith("@T") else x for x in t[5:]]
+    # (a replayed case carries the address images of the run that wrote it: same build, same bytes)
     return layout.prefix(t[1], t[2], int(t[3]), t[4], port) + " " + " ".join(ev)
 
 
